@@ -101,13 +101,13 @@ ADDED = {
  "C11": " Further: lazily built fields are read only after their once has run in the same call; the write-effect rule ranges over the field-reachability closure of the model types; no package-level variable written after init; stateful out-of-module objects must be created per call; known finding: shared type objects rewritten by allOf compilation. No function returns the address of a persistent model field; no in-place re-slice of a foreign slice. The pooled loader's reset clears every field.",
  "C12": " Further: arithmetic of Length() (End()+1 / End() at EndTop / exactly SP,TAB,LF,CR trimmed); Len() and Check() rewind before and after and install a fresh scanner. The generic stack only pushes, pops one, or copies completely; no size or depth limit. The once wrappers store results inside once.Do and load them after it.",
  "C13": " Further: Scan rejects only through the state machine, the finished flag, setExp and the trims, and every successful return passes through all normalisation steps; ParseUint rejects only empty input, non-digits and overflow. cmpAbs/cmpInt/cmpFra/int()/fra() tabulated by operand role over every ordering of the part lengths, every index and every digit pair; the recogniser's counters, setExp and getNatural tabulated (C13.count).",
- "C14": " Further: a skipped blank leaves no trace; both annotation openers are tested together; constant regexps treat LF/CR and SPACE/TAB alike; a line end right after a comment opener ends the empty comment; notes are stored trimmed; every structural state of the rule loader lets NewLine pass; rule names are compared after TrimSpaces().Unquote(). The no-second-annotation guard is installed on every path that ends an inline annotation; a second line-end byte after a line end is absorbed; the end of the input right after the first slash of an annotation is an error. The scanners move their position by single steps only (no search inside a state function); the shortcut text is split at the pipe; an unclosed ### comment is an error. The comma of an object and of an array both allow annotations again.",
+ "C14": " Further: a skipped blank leaves no trace; both annotation openers are tested together; constant regexps treat LF/CR and SPACE/TAB alike; a line end right after a comment opener ends the empty comment; notes are stored trimmed; every structural state of the rule loader lets NewLine pass; rule names are compared after TrimSpaces().Unquote(). The no-second-annotation guard is installed on every path that ends an inline annotation; a second line-end byte after a line end is absorbed; the end of the input right after the first slash of an annotation is an error. The scanners move their position by single steps only (no search inside a state function); the shortcut text is split at the pipe; an unclosed ### comment is an error. The comma of an object and of an array both allow annotations again. On the scanner model, the end of the input is accepted after a prefix exactly when a line end followed by the end of the input is (alphabet of 16 byte classes, all reachable configurations).",
  "C16": " Further: every SetIndex argument is a scanner idiom or tabled; rendering cannot panic (clamped Repeat count); guarded element accesses incl. the variable-index inventory; a registered type has a root node and is registered with its own file; end-of-input handlers close lexemes with their partner; a JSON document is rewound with a fresh scanner. Bytes.LineAndColumn is a per-byte counter program (newline symbol: line+1, column reset; else column+1; 1-based) over data[:index] and is recomputed after SetIndex/SetFile; type registrations pass offset 0 (checkType re-bases by Type.Begin); replacing the file of an error resets its cached length/newline symbol. All fmt format strings are constants; the newline symbol is decided over the whole text (512-cell table); SetFile recounts line and column.",
  "C17": " Further: both uniqueness maps are keyed by the whole <value, kind> item; the small literal predicates of the two classifiers have equal symbolic accept sets; every transition to the rule-value state records the rule name; an empty `//` comment ends at the line end. An empty rule text is a positioned diagnostic; the end-of-input handlers of the rule scanner and the schema scanner close the same openers; the end of the input right after a single slash is an error. No function writes into a []byte parameter or Bytes storage (the string decoder allocates); string states accept exactly the RFC 8259 bytes. Both annotation openers are recognised wherever one is; Enum.Values() returns a fresh slice.",
  "C18": " Further: the pattern is matched against the decoded string; FromRSchema encodes exactly the result of Pattern(); no pooled buffer is returned from Example(). InQuotes and the classifier's IsString accept the same literals; the \\u decoder table.",
  "C19": " Further: the set constructor appends (no position writes). No method returns the container's order slice or data map itself. Slices made with a length are never appended to.",
  "C20": " Further: the five small literal predicates of GuessSchemaType and json.Guess have equal symbolic accept sets. Bytes.InQuotes and GuessData.IsString have equal accept sets.",
- "C15": " Further: NewLine/EndTop lexemes do not move the length; LF differs from SPACE in the pipe-accepting shortcut states; dedicated callees of the return stack leave by a pop. The scanners move their position by single steps only; an unclosed ### comment is an error at the end of the input.",
+ "C15": " Further: NewLine/EndTop lexemes do not move the length; LF differs from SPACE in the pipe-accepting shortcut states; dedicated callees of the return stack leave by a pop. The scanners move their position by single steps only; an unclosed ### comment is an error at the end of the input. On the scanner model, the end of the input is accepted after a prefix exactly when a line end followed by the end of the input is.",
 }
 
 NOT_YET = {}
